@@ -250,7 +250,23 @@ class SingleRun:
         except Stop as s:
             return s.violation
         finally:
+            self.final_digest = self._digest()
             self.close()
+
+    def _digest(self) -> str:
+        import hashlib
+
+        h = hashlib.sha256()
+        try:
+            for p in self.params:
+                h.update(spec.tensor_bytes(p))
+                if p in self.opt.state:
+                    for path, t in spec.walk_state(self.opt.state[p]):
+                        h.update(repr(path).encode())
+                        h.update(spec.tensor_bytes(t))
+        except Exception as e:  # noqa: BLE001
+            h.update(repr(e).encode())
+        return h.hexdigest()[:20]
 
 
 # =====================================================================================================================
